@@ -32,6 +32,15 @@
 //!      `environment` - child processes under TZ west / east of UTC; the wall clock read again across a
 //!      second boundary and after a pause; create functions with a signer sleeping across a second;
 //!      `interactions.time` - EE window x CRL window x signing time x evaluation instant, independently.
+//!  (e) round 11:
+//!      `history.parts` - messages assembled from parts with independently chosen issuers (EE certificate by A / B,
+//!      AKI present / absent, EE key, attribute signer, CRL by A / B) validated under A and B: all ordered pairs
+//!      (thorough: triples) of such operations on one new thread against the operation alone on a new thread;
+//!      `history.tamper` - after a genuine success on a new thread: every single-bit flip and every change a folding
+//!      checksum cannot see (same bit in two aligned words, +1 / -1, exchanged words) in every signed part;
+//!      `attrs.oid_relation` - additional signed attributes whose type is chosen by its relation to the mandatory
+//!      types (prefix, extension, one arc changed / dropped / inserted, same last arcs elsewhere, same last octet in
+//!      a multi-octet arc) x value shapes: must validate; in place of the mandatory attribute: must not.
 //!
 //! Reference model: the condition vector itself (valid <=> all true).
 
@@ -1518,6 +1527,389 @@ fn space_time_interactions(ctx: &Ctx, fx: &Fx) {
     sp.done(true, &format!("{0}^2 EE windows x {0}^2 CRL windows x {0} signing times x 2 x {0} instants x 2 decoders", dom.len()));
 }
 
+//============ round 11: parts with independent issuers in sequence, identifier relations, tampering after a success ====
+
+/// Runs `f` on an OS thread of its own (fresh thread-locals), guarded.
+fn on_own_thread<T: Send>(f: impl FnOnce() -> T + Send) -> Result<T, String> {
+    std::thread::scope(|sc| sc.spawn(|| guard(f)).join()).unwrap_or_else(|_| Err("the thread panicked outside the guard".into()))
+}
+
+/// A message assembled from parts whose issuers are chosen independently. Issuer / key 0 = A (the peer key,
+/// pool key 0), 1 = B (pool key 1). aki: 0 = extension absent, 1 = the issuer's key identifier, 2 = the other
+/// key's identifier. ee_key / signer: 0 = pool key 3, 1 = pool key 4 (the sid follows the certificate).
+#[derive(Clone, Copy, Debug, PartialEq, Eq, PartialOrd, Ord)]
+struct PartsMsg { ee_issuer: u8, ee_aki: u8, ee_key: u8, signer: u8, crl_issuer: u8, crl_aki: u8 }
+
+const AB: [usize; 2] = [K_PEER, K_OTHER];
+const AB_NAME: [&str; 2] = ["A", "B"];
+
+impl PartsMsg {
+    fn show(&self) -> String {
+        let aki = |issuer: u8, a: u8| match a { 0 => "absent".to_string(), 1 => AB_NAME[issuer as usize].to_string(), _ => AB_NAME[1 - issuer as usize].to_string() };
+        format!("msg{{EE certificate: issued-by={} aki={} key=E{}; attributes signed-by=E{}; CRL: issued-by={} aki={}}}",
+            AB_NAME[self.ee_issuer as usize], aki(self.ee_issuer, self.ee_aki), self.ee_key + 1, self.signer + 1, AB_NAME[self.crl_issuer as usize], aki(self.crl_issuer, self.crl_aki))
+    }
+    /// The property's verdict under key `k` at T0.
+    fn model(&self, k: u8) -> bool { self.ee_issuer == k && self.crl_issuer == k && self.signer == self.ee_key && self.ee_aki != 2 && self.crl_aki != 2 }
+    fn shares_part_with(&self, o: &PartsMsg) -> bool {
+        (self.ee_issuer, self.ee_aki, self.ee_key) == (o.ee_issuer, o.ee_aki, o.ee_key) || (self.crl_issuer, self.crl_aki) == (o.crl_issuer, o.crl_aki)
+    }
+}
+
+fn parts_messages(fx: &Fx, akis: &[u8], split_signer: bool) -> Vec<(PartsMsg, Vec<u8>)> {
+    let s = &fx.s;
+    let aki_of = |issuer: u8, a: u8| match a { 0 => None, 1 => Some(s.key(AB[issuer as usize]).ski.to_vec()), _ => Some(s.key(AB[1 - issuer as usize]).ski.to_vec()) };
+    let mut ees: BTreeMap<(u8, u8, u8), Vec<u8>> = BTreeMap::new();
+    let mut crls: BTreeMap<(u8, u8), Vec<u8>> = BTreeMap::new();
+    for issuer in 0..2u8 { for &a in akis {
+        for key in 0..2u8 {
+            ees.insert((issuer, a, key), ee_cert(s, &EeSpec { serial: EE_SERIAL.to_vec(), nb: T0 - W, na: T0 + W, subject_key: [K_EE, K_EE2][key as usize], sign_key: AB[issuer as usize], ski: None,
+                aki: aki_of(issuer, a), basic: Basic::Absent, key_usage_ext: false, issuer: 0, subject: 0 }));
+        }
+        crls.insert((issuer, a), crl(s, &CrlSpec { this: T0 - W, next: T0 + W, sign_key: AB[issuer as usize], revoked: Some(vec![]), aki: aki_of(issuer, a), number: Some(42), unknown_ext: false, ext_block: true,
+            ign: CrlIgn::DEFAULT, ee_serial: EE_SERIAL.to_vec() }));
+    }}
+    let base = Plan::base();
+    let signed: Vec<Presigned> = [SigV::Ok, SigV::OtherKey].iter().map(|sv| { let mut p = Plan::base(); p.sig = *sv; presign(fx, &p) }).collect();
+    let mut v = Vec::new();
+    for ee_issuer in 0..2u8 { for &ee_aki in akis { for ee_key in 0..2u8 { for signer in 0..2u8 { for crl_issuer in 0..2u8 { for &crl_aki in akis {
+        if !split_signer && signer != ee_key { continue }
+        let m = PartsMsg { ee_issuer, ee_aki, ee_key, signer, crl_issuer, crl_aki };
+        v.push((m, wrap(fx, &base, &signed[signer as usize], ee_key == 1, &ees[&(ee_issuer, ee_aki, ee_key)], &crls[&(crl_issuer, crl_aki)])));
+    }}}}}}
+    v
+}
+
+fn space_history_parts(ctx: &Ctx, fx: &Fx) {
+    let thorough = ctx.tier.is_thorough();
+    let sp = ctx.space("history.parts",
+        "what happened before on the same thread, for messages that SHARE PARTS: messages assembled by the independent encoder from parts with independently chosen issuers - EE certificate issued by key A or B, with its AKI extension absent / naming its issuer (thorough: / naming the other key), certifying EE key E1 or E2; signed attributes signed by E1 or E2; CRL issued by A or B with its AKI absent / naming its issuer (thorough: / the other key) - all 64 (thorough 144) messages, every one validated under A and under B: 128 (288) operations. Equal parts are octet-identical in all messages that carry them. On a NEW OS thread: every ordered pair of operations (the second through SignedMessage strict and then through PublicationCms); thorough: also every ordered triple of the 64 operations whose attributes are signed by the certified key. Every operation after the first must validate or not exactly as the same operation does as the first thing on a thread of its own (a rejection for another reason is counted, not judged), and that one must be the property's: validated <=> EE certificate and CRL both issued by the key asked for, attributes signed by the certified key, no AKI naming another key. non-trivial = sequences in which an earlier operation validated and the last operation is another (message, key) sharing its EE certificate or its CRL");
+    let akis: Vec<u8> = if thorough { vec![0, 1, 2] } else { vec![0, 1] };
+    let msgs = parts_messages(fx, &akis, true);
+    let ops: Vec<(usize, u8)> = (0..msgs.len()).flat_map(|m| [(m, 0u8), (m, 1u8)]).collect();
+    let op_show = |o: &(usize, u8)| format!("validate {} under key {}", msgs[o.0].0.show(), AB_NAME[o.1 as usize]);
+    let eval = |o: &(usize, u8), via: Via| run(&msgs[o.0].1, &fx.s.public(AB[o.1 as usize]), T0, via).show().replace('\n', " ");
+    // baseline: every operation, each route, first thing on its own thread
+    let base: Vec<[String; 2]> = ops.par_iter().map(|o| [Via::Strict, Via::Publication].map(|via| on_own_thread(|| eval(o, via)).unwrap_or_else(|p| p))).collect();
+    for (o, b) in ops.iter().zip(base.iter()) { for (r, via) in [Via::Strict, Via::Publication].iter().enumerate() {
+        sp.eval(); sp.outcome(if b[r] == "validated" { "alone: validated" } else { "alone: rejected" });
+        let want = msgs[o.0].0.model(o.1);
+        if b[r].starts_with("panic") { fail("C10.no_panic", format!("alone on a new thread: {} via={via:?} when=T0", op_show(o)), b[r].clone()) }
+        else if (b[r] == "validated") != want { fail("C10.history.fresh", format!("alone on a new thread: {} via={via:?} when=T0", op_show(o)), format!("the property says {}, observed: {}", if want { "validated" } else { "rejected" }, trunc(&b[r], 200))) }
+    }}
+    let mut seqs: Vec<Vec<usize>> = Vec::new();
+    for a in 0..ops.len() { for b in 0..ops.len() { seqs.push(vec![a, b]) } }
+    let mut n_triple_ops = 0;
+    if thorough {
+        let small: Vec<usize> = ops.iter().enumerate().filter(|(_, o)| { let m = &msgs[o.0].0; m.signer == m.ee_key && m.ee_aki < 2 && m.crl_aki < 2 }).map(|(i, _)| i).collect();
+        n_triple_ops = small.len();
+        for &a in &small { for &b in &small { for &c in &small { seqs.push(vec![a, b, c]) } } }
+    }
+    let (n_eval, n_nt, n_acc, n_rej, n_reason) = (AtomicUsize::new(0), AtomicUsize::new(0), AtomicUsize::new(0), AtomicUsize::new(0), AtomicUsize::new(0));
+    seqs.par_iter().for_each(|sq| {
+        let wit = |upto: usize, via: Via| format!("new thread, first: {}; then: {} via={via:?} when=T0", sq[..upto].iter().map(|&i| op_show(&ops[i])).collect::<Vec<_>>().join("; then: "), op_show(&ops[sq[upto]]));
+        let r = on_own_thread(|| {
+            let mut obs: Vec<String> = sq.iter().map(|&i| eval(&ops[i], Via::Strict)).collect();
+            obs.push(eval(&ops[*sq.last().unwrap()], Via::Publication));
+            obs
+        });
+        let last = *sq.last().unwrap();
+        match r {
+            Err(p) => fail("C10.no_panic", wit(sq.len() - 1, Via::Strict), p),
+            Ok(obs) => {
+                n_eval.fetch_add(obs.len(), Ordering::Relaxed);
+                // judged: validated or not (what the property speaks about); a rejection for another reason than alone is counted
+                let mut cmp = |got: &String, alone: &String, w: String| {
+                    if got.starts_with("panic") { fail("C10.no_panic", w, got.clone()) }
+                    else if (got == "validated") != (alone == "validated") { fail("C10.history.independent", w, format!("observed `{}`, alone on a new thread the operation gives `{}`", trunc(got, 160), trunc(alone, 160))) }
+                    else if got != alone { n_reason.fetch_add(1, Ordering::Relaxed); }
+                };
+                for (pos, &i) in sq.iter().enumerate().skip(1) { cmp(&obs[pos], &base[i][0], wit(pos, Via::Strict)) }
+                cmp(&obs[sq.len()], &base[last][1], wit(sq.len() - 1, Via::Publication));
+                if obs[sq.len() - 1] == "validated" { n_acc.fetch_add(1, Ordering::Relaxed); } else { n_rej.fetch_add(1, Ordering::Relaxed); }
+                let lm = &msgs[ops[last].0].0;
+                if sq[..sq.len() - 1].iter().any(|&i| i != last && base[i][0] == "validated" && msgs[ops[i].0].0.shares_part_with(lm)) { n_nt.fetch_add(1, Ordering::Relaxed); }
+            }
+        }
+    });
+    sp.evals(n_eval.load(Ordering::Relaxed) as u64);
+    sp.nontrivial(n_nt.load(Ordering::Relaxed) as u64);
+    sp.outcomes_n("last operation validated", n_acc.load(Ordering::Relaxed) as u64);
+    sp.outcomes_n("last operation rejected", n_rej.load(Ordering::Relaxed) as u64);
+    sp.set("messages", serde_json::json!(msgs.len()));
+    sp.set("operations", serde_json::json!(ops.len()));
+    sp.set("rejected_for_another_reason_than_alone", serde_json::json!(n_reason.load(Ordering::Relaxed)));
+    sp.sample_str(|| format!("new thread, first: {}; then: {} -> rejected as on a thread of its own (B never signed that certificate)",
+        op_show(&(msgs.iter().position(|(m, _)| *m == PartsMsg { ee_issuer: 0, ee_aki: 0, ee_key: 0, signer: 0, crl_issuer: 0, crl_aki: 1 }).unwrap_or(0), 0)),
+        op_show(&(msgs.iter().position(|(m, _)| *m == PartsMsg { ee_issuer: 0, ee_aki: 0, ee_key: 0, signer: 0, crl_issuer: 1, crl_aki: 1 }).unwrap_or(0), 1))));
+    sp.done(true, &format!("{} messages x 2 keys = {} operations; all {} ordered pairs{}, each on a new OS thread, last operation through 2 decoders", msgs.len(), ops.len(), ops.len() * ops.len(),
+        if thorough { format!(" and all {}^3 ordered triples of the operations with consistent attribute signer", n_triple_ops) } else { String::new() }));
+}
+
+//------------ identifier relations of additional signed attributes ---------------------------------------------------
+
+fn dotted(a: &[u64]) -> String { a.iter().map(|x| x.to_string()).collect::<Vec<_>>().join(".") }
+
+const PKCS9: [u64; 6] = [1, 2, 840, 113549, 1, 9];
+const MANDATORY_ATTRS: [(&str, u64); 3] = [("contentType", 3), ("messageDigest", 4), ("signingTime", 5)];
+
+/// Attribute types chosen by their RELATION to the three mandatory types 1.2.840.113549.1.9.{3,4,5}
+/// (none of them is one of the three): OID -> the relation it was first generated by.
+fn related_oids() -> BTreeMap<Vec<u64>, String> {
+    let mand: Vec<Vec<u64>> = MANDATORY_ATTRS.iter().map(|(_, x)| { let mut v = PKCS9.to_vec(); v.push(*x); v }).collect();
+    let mut out: BTreeMap<Vec<u64>, String> = BTreeMap::new();
+    let mut add = |o: Vec<u64>, rel: String| {
+        let ok = o.len() >= 2 && o[0] <= 2 && (o[0] == 2 || o[1] < 40) && !mand.contains(&o);
+        if ok { out.entry(o).or_insert(rel); }
+    };
+    for k in 2..=6 { add(PKCS9[..k].to_vec(), "proper prefix of the mandatory types".into()) }
+    let inner: [u64; 3] = [2, 16, 200];
+    let lasts: [u64; 8] = [0, 3, 4, 5, 46, 131, 132, 133];
+    for (name, x) in MANDATORY_ATTRS {
+        let m: Vec<u64> = { let mut v = PKCS9.to_vec(); v.push(x); v };
+        // extensions of the mandatory type by 1..=3 arcs
+        for &l in &lasts { let mut o = m.clone(); o.push(l); add(o, format!("{name} extended by 1 arc")) }
+        for &a in &inner { for &l in &lasts { let mut o = m.clone(); o.extend([a, l]); add(o, format!("{name} extended by 2 arcs")) } }
+        for &a in &inner[..2] { for &b in &inner[..2] { for l in [3u64, 4, 5] { let mut o = m.clone(); o.extend([a, b, l]); add(o, format!("{name} extended by 3 arcs")) } } }
+        // one arc changed, at every position
+        let alts: [Vec<u64>; 7] = [vec![0, 2], vec![0, 1, 3, 39], vec![839, 841, 712, 968], vec![113548, 113550, 113421, 113677, 129933], vec![0, 2, 129], vec![8, 10, 137, 7],
+            vec![0, 1, 2, 6, 7, 8, 9, x + 128, x + 256, x + 16384, x + 8]];
+        for (pos, vals) in alts.iter().enumerate() { for &v in vals { let mut o = m.clone(); o[pos] = v; add(o, format!("{name} with arc {} changed", pos + 1)) } }
+        // one arc dropped / one arc inserted, at every position from the third on
+        for pos in 2..7 { let mut o = m.clone(); o.remove(pos); add(o, format!("{name} with arc {} dropped", pos + 1)) }
+        for pos in 2..7 { for v in [0u64, 9, x] { let mut o = m.clone(); o.insert(pos, v); add(o, format!("{name} with an arc inserted before arc {}", pos + 1)) } }
+        // the last arcs of the mandatory type under another root
+        for root in [&[1u64, 3, 6, 1, 4, 1, 99999][..], &[2, 5, 29], &[1, 2, 840, 113549, 1, 7], &[1, 2, 840, 113549, 1, 1], &[1, 2, 840, 10045], &[1, 3]] {
+            for k in 1..=4 { let mut o = root.to_vec(); o.extend(&m[7 - k..]); add(o, format!("the last {k} arc(s) of {name} under {}", dotted(root))) }
+        }
+    }
+    // other types below the shared arc 1.2.840.113549.1.9 that end in the last arc (or the last octet) of a mandatory type
+    for mid in inner.iter().map(|a| vec![*a]).chain(inner.iter().flat_map(|a| inner.iter().map(move |b| vec![*a, *b]))).chain([vec![25u64], vec![52]]) {
+        for l in [3u64, 4, 5, 131, 132, 133] { let mut o = PKCS9.to_vec(); o.extend(&mid); o.push(l); add(o, "below 1.2.840.113549.1.9 through other arcs, ending like a mandatory type".into()) }
+    }
+    out
+}
+
+const VALUE_SHAPES: [&str; 9] = ["1-octet OCTET STRING", "the content type OID", "another OID", "OCTET STRING equal to the message digest", "another 32-octet OCTET STRING",
+    "time equal to the signing time", "SEQUENCE { UTF8String, OID } (content hints)", "two OCTET STRINGs", "200-octet OCTET STRING"];
+
+fn shape_values(fx: &Fx, shape: usize) -> Vec<Vec<u8>> {
+    match shape {
+        0 => vec![der::octets(&[7])],
+        1 => vec![der::oid(der::OID_CT_PROTOCOL)],
+        2 => vec![der::oid(der::OID_CT_ROA)],
+        3 => vec![der::octets(&sha256(&fx.content))],
+        4 => vec![der::octets(&[0x5a; 32])],
+        5 => vec![der::time_auto(civil(T0 - 60))],
+        6 => vec![der::seq(&[der::utf8("xml"), der::oid(der::OID_CT_PROTOCOL)])],
+        7 => vec![der::octets(&[1]), der::octets(&[2])],
+        _ => vec![der::octets(&(0..200).map(|i| (i * 7 + 3) as u8).collect::<Vec<_>>())],
+    }
+}
+
+fn space_attrs_relation(ctx: &Ctx, fx: &Fx) {
+    let thorough = ctx.tier.is_thorough();
+    let sp = ctx.space("attrs.oid_relation",
+        "additional signed attributes whose TYPE is chosen by its relation to the three mandatory types 1.2.840.113549.1.9.{3 contentType, 4 messageDigest, 5 signingTime}: every proper prefix; each mandatory type extended by 1, 2 or 3 arcs (inner arcs {2, 16, 200}, last arc {0, 3, 4, 5, 46, 131, 132, 133} - 131..133 are two-octet arcs whose last octet is 3..5); one arc changed at every one of the seven positions (neighbours, values with the same last octet in a two- or three-octet encoding, other small last arcs); one arc dropped / inserted at every position; the last 1..=4 arcs of a mandatory type under six other roots; other types below 1.2.840.113549.1.9 ending in 3 / 4 / 5 or in an arc whose last octet is that (id-aa-contentHint 1.2.840.113549.1.9.16.2.4 among them) - every such OID x 9 value shapes (1-octet string, the content type's OID, another OID, a copy of the message digest, another 32 octets, a copy of the signing time, SEQUENCE { UTF8String, OID }, two values, 200 octets) x placed before / after the mandatory attributes (thorough: at all four positions), correctly signed over all attributes: must validate (SignedMessage strict, relaxed, PublicationCms). Negative half: the same OIDs carrying the genuine value IN PLACE OF the mandatory attribute: without a messageDigest (contentType) attribute the message must not validate; without signingTime the outcome is counted only. non-trivial = distinct (OID, value shape) pairs");
+    let oids = related_oids();
+    let oid_list: Vec<(&Vec<u64>, &String)> = oids.iter().collect();
+    let p0 = Plan::base();
+    let (mandatory, _) = plan_attrs(fx, &p0);
+    let cache = Cache::new();
+    let (ee, crl_der) = (cache.ee(fx, &p0), cache.crl(fx, &p0));
+    let positions: Vec<usize> = if thorough { vec![0, 1, 2, 3] } else { vec![0, 3] };
+    let build = |attrs: Vec<Vec<u8>>| -> Vec<u8> {
+        let signature = fx.s.sign_raw(K_EE, &der::signed_attrs_tbs(&attrs));
+        wrap(fx, &p0, &Presigned { attrs, signature }, false, &ee, &crl_der)
+    };
+    let vias = [Via::Strict, Via::Relaxed, Via::Publication];
+    let oc: Mutex<BTreeMap<&'static str, u64>> = Mutex::new(BTreeMap::new());
+    let jobs: Vec<(usize, usize, usize)> = (0..oid_list.len()).flat_map(|o| (0..VALUE_SHAPES.len()).flat_map(move |s| [o].into_iter().map(move |o| (o, s)))).flat_map(|(o, s)| positions.iter().map(move |&p| (o, s, p))).collect();
+    jobs.par_iter().for_each(|&(o, shape, pos)| {
+        let (arcs, rel) = oid_list[o];
+        let mut attrs = mandatory.clone();
+        attrs.insert(pos, der::attribute(arcs, &shape_values(fx, shape)));
+        let bytes = build(attrs);
+        let mut local: BTreeMap<&'static str, u64> = BTreeMap::new();
+        for via in vias {
+            let v = run(&bytes, &fx.peer, T0, via);
+            *local.entry(v.class()).or_insert(0) += 1;
+            expect(ctx, "C10.attrs.relation.accept", "-", true, &v, || format!("foreign order=ct,md,st all conditions hold; one more signed attribute at position {pos} of 4: type={} ({rel}) value={} via={via:?} when=T0", dotted(arcs), VALUE_SHAPES[shape]));
+        }
+        sp.evals(vias.len() as u64);
+        let mut g = oc.lock().unwrap(); for (k, v) in local { *g.entry(k).or_insert(0) += v }
+    });
+    // negative half: the look-alike in place of the mandatory attribute
+    let genuine: [Vec<Vec<u8>>; 3] = [shape_values(fx, 1), shape_values(fx, 3), shape_values(fx, 5)];
+    let njobs: Vec<(usize, usize)> = (0..oid_list.len()).flat_map(|o| (0..3).map(move |r| (o, r))).collect();
+    njobs.par_iter().for_each(|&(o, replaced)| {
+        let (arcs, rel) = oid_list[o];
+        let mut attrs = mandatory.clone();
+        attrs[replaced] = der::attribute(arcs, &genuine[replaced]);
+        let bytes = build(attrs);
+        let mut local: BTreeMap<&'static str, u64> = BTreeMap::new();
+        for via in vias {
+            let v = run(&bytes, &fx.peer, T0, via);
+            let wit = || format!("foreign three signed attributes, {} replaced by type={} ({rel}) carrying the genuine value via={via:?} when=T0", MANDATORY_ATTRS[replaced].0, dotted(arcs));
+            match replaced {
+                0 => { *local.entry(v.class()).or_insert(0) += 1; expect(ctx, "-", "C10.attrs.relation.profile.reject", false, &v, wit) }
+                1 => { *local.entry(v.class()).or_insert(0) += 1; expect(ctx, "-", "C10.attrs.relation.reject", false, &v, wit) }
+                _ => {
+                    *local.entry(match &v { Verdict::Accept => "no-signing-time-validated", Verdict::Panic(_) => "panic", _ => "no-signing-time-rejected" }).or_insert(0) += 1;
+                    if let Verdict::Panic(pn) = &v { fail("C10.no_panic", wit(), pn.clone()) }
+                }
+            }
+        }
+        sp.evals(vias.len() as u64);
+        let mut g = oc.lock().unwrap(); for (k, v) in local { *g.entry(k).or_insert(0) += v }
+    });
+    sp.merge_outcomes(&oc.lock().unwrap());
+    sp.nontrivial((oid_list.len() * VALUE_SHAPES.len()) as u64);
+    let mut per_rel: BTreeMap<String, u64> = BTreeMap::new();
+    for r in oids.values() { let k = r.replace("contentType", "<m>").replace("messageDigest", "<m>").replace("signingTime", "<m>"); *per_rel.entry(k).or_insert(0) += 1 }
+    sp.set("oids", serde_json::json!(oid_list.len()));
+    sp.set("oids_per_relation", serde_json::json!(per_rel));
+    sp.sample_str(|| format!("{} related attribute types, e.g. {}", oid_list.len(), oid_list.iter().step_by(oid_list.len() / 12 + 1).map(|(a, _)| dotted(a)).collect::<Vec<_>>().join(", ")));
+    sp.done(true, &format!("{} attribute types x {} value shapes x {} positions x 3 decoders; {} types x 3 replaced mandatory attributes x 3 decoders", oid_list.len(), VALUE_SHAPES.len(), positions.len(), oid_list.len()));
+}
+
+//------------ tampering after a genuine success on the same thread ---------------------------------------------------
+
+/// A range of the message every octet of which is covered by a signature (or is signature value itself),
+/// and the origin of the word grid laid over it.
+struct TamperField { name: &'static str, start: usize, end: usize, origin: usize }
+
+fn tamper_fields(bytes: &[u8]) -> Vec<TamperField> {
+    let root = der::parse_one(bytes, false).expect("message of the independent encoder parses");
+    let sd = &root.children[1].children[0];
+    let mut f = Vec::new();
+    let ec = &sd.children[2].children[1].children[0];
+    f.push(TamperField { name: "eContent", start: ec.start + ec.hdr, end: ec.end(), origin: ec.start + ec.hdr });
+    for (tag, names) in [(0xA0u8, ["EE certificate TBS", "EE certificate signature", "EE certificate signature (grid of the TBS)", "EE certificate TBS..signature"]), (0xA1, ["CRL TBS", "CRL signature", "CRL signature (grid of the TBS)", "CRL TBS..signature"])] {
+        let Some(holder) = sd.children.iter().find(|n| n.tag == tag) else { continue };
+        let obj = &holder.children[0];
+        let (tbs, sig) = (&obj.children[0], &obj.children[2]);
+        let sig_start = sig.start + sig.hdr + 1;
+        f.push(TamperField { name: names[0], start: tbs.start, end: tbs.end(), origin: tbs.start });
+        f.push(TamperField { name: names[1], start: sig_start, end: sig.end(), origin: sig_start });
+        f.push(TamperField { name: names[2], start: sig_start, end: sig.end(), origin: tbs.start });
+        f.push(TamperField { name: names[3], start: tbs.start, end: sig.end(), origin: tbs.start });
+    }
+    let si = &sd.children[sd.children.len() - 1].children[0];
+    let attrs = &si.children[3];
+    f.push(TamperField { name: "signedAttrs", start: attrs.start + attrs.hdr, end: attrs.end(), origin: attrs.start + attrs.hdr });
+    let md_oid = der::oid(der::OID_MESSAGE_DIGEST);
+    if let Some(a) = attrs.children.iter().find(|a| a.children[0].whole(bytes) == md_oid.as_slice()) {
+        let v = &a.children[1].children[0];
+        f.push(TamperField { name: "messageDigest value", start: v.start + v.hdr, end: v.end(), origin: v.start + v.hdr });
+    }
+    let sig = &si.children[5];
+    f.push(TamperField { name: "SignerInfo signature", start: sig.start + sig.hdr, end: sig.end(), origin: sig.start + sig.hdr });
+    f
+}
+
+/// Ranges whose every octet is signed content or signature value: a variant must touch one of them to be judged.
+fn protected_ranges(bytes: &[u8]) -> Vec<(usize, usize)> {
+    tamper_fields(bytes).iter().filter(|f| !f.name.contains("..")).map(|f| (f.start, f.end)).collect()
+}
+
+#[derive(Clone, Debug)]
+struct Variant { what: String, bytes: Vec<u8> }
+
+/// Changes that a checksum folding aligned words (xor, sum, any symmetric function) cannot see: the same bit
+/// flipped in two words, +1 in one word and -1 in another, two words exchanged.
+fn fold_colliding(bytes: &[u8], fld: &TamperField, all_bits: bool) -> Vec<Variant> {
+    let mut out = Vec::new();
+    for w in [1usize, 2, 4, 8] {
+        // complete words of the grid inside the field
+        let first = fld.origin + (fld.start - fld.origin).div_ceil(w) * w;
+        if fld.end < first + 2 * w { continue }
+        let n = (fld.end - first) / w;
+        let mut idx: BTreeSet<usize> = BTreeSet::new();
+        for i in [0, 1, 2, n / 2, n - 2, n - 1] { if i < n { idx.insert(i); } }
+        let idx: Vec<usize> = idx.into_iter().collect();
+        let bits: Vec<usize> = if all_bits { (0..8 * w).collect() } else { vec![0, 8 * w - 1] };
+        for (a, &i) in idx.iter().enumerate() { for &j in &idx[a + 1..] {
+            let (pi, pj) = (first + i * w, first + j * w);
+            let place = format!("words #{i} and #{j} of {w} octet(s) (message octets {pi}.. and {pj}..) of the {}", fld.name);
+            for &b in &bits {
+                let mut m = bytes.to_vec();
+                m[pi + b / 8] ^= 0x80 >> (b % 8); m[pj + b / 8] ^= 0x80 >> (b % 8);
+                out.push(Variant { what: format!("bit {b} flipped in {place}"), bytes: m });
+            }
+            for dir in [false, true] {
+                let mut m = bytes.to_vec();
+                let (up, down) = if dir { (pj, pi) } else { (pi, pj) };
+                for k in (0..w).rev() { m[up + k] = m[up + k].wrapping_add(1); if m[up + k] != 0 { break } }
+                for k in (0..w).rev() { m[down + k] = m[down + k].wrapping_sub(1); if m[down + k] != 0xff { break } }
+                out.push(Variant { what: format!("+1 / -1 (big-endian) in {place}{}", if dir { ", the other way round" } else { "" }), bytes: m });
+            }
+            let mut m = bytes.to_vec();
+            for k in 0..w { m.swap(pi + k, pj + k) }
+            if m != bytes { out.push(Variant { what: format!("exchanged {place}"), bytes: m }) }
+        }}
+    }
+    out
+}
+
+fn space_history_tamper(ctx: &Ctx, fx: &Fx) {
+    let thorough = ctx.tier.is_thorough();
+    let sp = ctx.space("history.tamper",
+        "tampering AFTER a genuine success on the same thread: a message that validates under the peer key is validated on a new OS thread, then a tampered copy of it, then the genuine message again. Tampered copies: (1) every single-bit flip (32 flips per thread); (2) for every signed part {eContent, EE certificate TBS, its signature value, CRL TBS, its signature value, signed attributes, messageDigest value, SignerInfo signature value; the signature values also on the word grid of their TBS, and TBS..signature as one range: 12 parts} and word sizes 1, 2, 4, 8 octets (grid starting at the part): all pairs out of the words {#0, #1, #2, middle, last-1, last} x {the same bit flipped in both (quick: first and last bit of the word, thorough: every bit), +1 in one and -1 in the other (both directions), the two words exchanged} - changes invisible to any checksum that folds aligned words (one thread per copy). Every copy touches signed octets or signature value, so it must never validate; the genuine message must validate before and after. Messages: foreign with 3 signed attributes (thorough: also library-created, and foreign with 4 attributes, no AKI). non-trivial = tampered copies");
+    let cache = Cache::new();
+    let s = &fx.s;
+    let mut objs: Vec<(String, Vec<u8>)> = vec![("foreign-3-attrs".into(), cache.build(fx, &Plan::base()))];
+    if thorough {
+        if let Ok(Ok((b, _, _))) = guard(|| create_message(0, &s.kid(K_PEER), s, &fx.content)) { objs.push(("library-created".into(), b)) }
+        let mut p = Plan::base(); p.ee = EeV::NoAki; p.crl = CrlV::NoAki; p.extras = vec![Extra::Unk100];
+        objs.push(("foreign-4-attrs-no-aki".into(), cache.build(fx, &p)));
+    }
+    let oc: Mutex<BTreeMap<&'static str, u64>> = Mutex::new(BTreeMap::new());
+    for (nm, bytes) in &objs {
+        let protected = protected_ranges(bytes);
+        let touches = |m: &[u8]| m.len() == bytes.len() && protected.iter().any(|&(a, b)| m[a..b] != bytes[a..b]);
+        // (variant list, genuine message re-validated before each variant?)
+        let mut groups: Vec<Vec<Variant>> = Vec::new();
+        let flips: Vec<Variant> = (0..bytes.len() * 8).map(|bit| { let mut m = bytes.clone(); m[bit / 8] ^= 0x80 >> (bit % 8); Variant { what: format!("octet={} mask={:#04x}", bit / 8, 0x80u8 >> (bit % 8)), bytes: m } }).collect();
+        for c in flips.chunks(32) { groups.push(c.to_vec()) }
+        let n_flips = flips.len();
+        let mut n_fold = 0;
+        for fld in tamper_fields(bytes) { for v in fold_colliding(bytes, &fld, thorough) { if touches(&v.bytes) { n_fold += 1; groups.push(vec![v]) } } }
+        groups.par_iter().for_each(|g| {
+            let judged_all = g.len() == 1; // single flips anywhere are judged as tamper.bitflip does; fold variants touch protected octets
+            let r = on_own_thread(|| {
+                let mut obs = vec![run(bytes, &fx.peer, T0, Via::Strict)];
+                for v in g { obs.push(run(&v.bytes, &fx.peer, T0, Via::Strict)) }
+                obs.push(run(bytes, &fx.peer, T0, Via::Strict));
+                obs
+            });
+            let _ = judged_all;
+            let mut local: BTreeMap<&'static str, u64> = BTreeMap::new();
+            match r {
+                Err(p) => fail("C10.no_panic", format!("new thread: {nm} validated under the peer key at T0, then tampered copies starting with: {}", g[0].what), p),
+                Ok(obs) => {
+                    for (k, which) in [(0usize, "first"), (obs.len() - 1, "again after the tampered copies")] {
+                        *local.entry(if obs[k].accepted() { "genuine validated" } else { "genuine rejected" }).or_insert(0) += 1;
+                        if !obs[k].accepted() { fail("C10.history.independent", format!("new thread: {nm} untouched, validated {which} ({}) via=Strict when=T0", g[0].what), format!("the genuine message gives `{}`", trunc(&obs[k].show(), 160))) }
+                    }
+                    for (v, o) in g.iter().zip(obs[1..].iter()) {
+                        *local.entry(match o { Verdict::Accept => "tampered validated", Verdict::Decode(_) => "tampered refused at decode", Verdict::Invalid(_) => "tampered rejected at validation", Verdict::Panic(_) => "panic" }).or_insert(0) += 1;
+                        let wit = || format!("new thread, first: {nm} untouched ({} octets) validated under the peer key; then the copy with {} via=Strict when=T0", bytes.len(), v.what);
+                        match o { Verdict::Accept => fail("C10.history.tamper.reject", wit(), "the tampered copy validated after the genuine message had validated on the same thread"), Verdict::Panic(p) => fail("C10.no_panic", wit(), p.clone()), _ => {} }
+                    }
+                    sp.evals(obs.len() as u64);
+                }
+            }
+            let mut gl = oc.lock().unwrap(); for (k, v) in local { *gl.entry(k).or_insert(0) += v }
+        });
+        sp.nontrivial((n_flips + n_fold) as u64);
+        sp.set(&format!("copies_{nm}"), serde_json::json!(format!("{n_flips} single-bit flips, {n_fold} fold-colliding changes over {} parts", tamper_fields(bytes).len())));
+    }
+    sp.merge_outcomes(&oc.lock().unwrap());
+    sp.sample_str(|| "new thread: foreign-3-attrs validated; then the copy with bit 0 flipped in words #0 and #1 of 8 octet(s) of the EE certificate signature -> rejected; genuine again -> validated".to_string());
+    sp.done(true, &format!("{} message(s): every single-bit flip + every fold-colliding change over 12 parts x 4 word sizes x 15 word pairs x ({} bits + 2 + 1), after a genuine success on a new thread", objs.len(), if thorough { "all" } else { "2" }));
+}
+
 //------------ main -------------------------------------------------------------------------------
 
 fn main() {
@@ -2530,6 +2922,9 @@ fn main() {
     let subj = subjects(&fx);
     space_signer_sequences(&ctx, &fx); lap("signer.sequences");
     space_history_predecessors(&ctx, &fx, &subj); lap("history.predecessors");
+    space_history_parts(&ctx, &fx); lap("history.parts");
+    space_history_tamper(&ctx, &fx); lap("history.tamper");
+    space_attrs_relation(&ctx, &fx); lap("attrs.oid_relation");
     space_environment(&ctx, &fx, &subj); lap("environment");
     space_time_interactions(&ctx, &fx); lap("interactions.time");
 
